@@ -7,7 +7,7 @@ from ..harness import Fixed, Guarded, Rational, raw
 
 ID = 'C08'
 LEVEL = 'exploration'
-RULE_TEXT = ('profiles G1, G2, G6 (more seats than supported candidates: the quota decays geometrically) and G8 (equal-rank ballots, '
+RULE_TEXT = ('profiles G1, G2, G6 (more seats than supported candidates: the quota decays geometrically), G12 (four cases per shard (60 in the thorough tier): 20-126 seats, all but one filled at once on bullet votes, so one round takes hundreds to thousands of distributions) and G8/G8b (equal-rank ballots, quota creep, '
              'recursive split; meek/warren only) x meek, warren (fixed p3-12, guarded p6-18 g0-9, default, tiny rational; omega <= '
              'precision; defeat_batch safe/none) and meek-prf. At every snapshot taken right after a distribution (meek/warren: the '
              "iterate and end actions; meek-prf: begin, end and every elect/tie/defeat with no exclusion since the last 'round') the monitor "
@@ -17,7 +17,7 @@ RULE_TEXT = ('profiles G1, G2, G6 (more seats than supported candidates: the quo
              'elected keep factor < 1')
 ASSUMPTIONS = ['freshness rules of DESIGN 2.1 (meek-prf snapshots after an exclusion are outside the claim, as the property says)',
                'the candidate named by a defeat action still carries keep factor 1 in that action\'s snapshot']
-MIN_COUNTERS = {'counts_judged': 200, 'fresh_snapshots_checked': 1000, 'omega_exits_checked': 100, 'exclusions_checked': 200,
+MIN_COUNTERS = {'counts_judged': 200, 'counts_with_over_300_distributions': 5, 'fresh_snapshots_checked': 1000, 'omega_exits_checked': 100, 'exclusions_checked': 200,
                 'kf_values_checked': 5000}
 WEIGHTS = dict(G1=4, G2=2, G3=1, G4=2, G6=4, G7=1, G10=1, G11=2)
 ANCHOR_FILES = ['droop/rules/meek.py', 'droop/rules/meek_prf.py', 'droop/rules/electionmethods.py']
@@ -149,12 +149,33 @@ def check(run):
     return out, st
 
 
+def slow_tweak(rng, opts):
+    if rng.random() < 0.6:
+        p = rng.randint(9, 14)
+        return dict(rule=opts['rule'], arithmetic='fixed', precision=p, omega=rng.randint(p - 4, p - 2))
+    return dict(rule=opts['rule'])
+
+
 def shard(ctx):
     install_div_counter()
     n_min = 60 if ctx.quick else 400
+    slow_done = 0
     for i, rng in ctx.cases(n_min, 10 ** 9):
         DIV_CALLS[0] = 0
-        case = stream.make_case(ctx, rng, WEIGHTS, rules=configs.MEEKS, meek_rational=True)
+        if i % 40 == 5 and slow_done < (4 if ctx.quick else 60):
+            slow_done += 1
+            # slowest convergence the rule has: hundreds to thousands of distributions in one round (an iteration that gives up early,
+            # or ends without saying why, shows here and nowhere else)
+            case = stream.make_case(ctx, rng, dict(G12=1), rules=['meek', 'warren'], allow_eq=False, budget=12.0, big=False, tweak=slow_tweak)
+            ctx.count('slow_convergence_cases')
+            if case.run.complete:
+                ctx.count('kf_updates_in_slow_cases', DIV_CALLS[0])
+                longest = DIV_CALLS[0] // max(1, case.s['ns'] - 1)
+                for thr in (300, 1000, 2000):
+                    if longest > thr:
+                        ctx.count('counts_with_over_%d_distributions' % thr)
+        else:
+            case = stream.make_case(ctx, rng, WEIGHTS, rules=configs.MEEKS, meek_rational=True)
         if not stream.usable(ctx, case):
             continue
         vs, st = check(case.run)
